@@ -26,9 +26,18 @@ REG = Registry(
 )
 
 
+def _route(*key):
+    """How the machine of a case gets its settings: a deterministic function of the settings themselves."""
+    import zlib
+
+    return zlib.crc32(repr(key).encode()) % 4
+
+
 def machine(init, upd, thr, cap, count_floor=EPS, **kw):
-    g = sut.make_gmm(
-        init,
+    """An ML machine holding `init` with the given settings.  The settings arrive either through the constructor, or
+    (scikit-learn estimator API) through set_params / attribute assignment on a machine that was built with other
+    settings — including one that was built as a MAP machine and is switched to ML training."""
+    want = dict(
         trainer="ml",
         convergence_threshold=thr,
         max_fitting_steps=cap,
@@ -36,8 +45,25 @@ def machine(init, upd, thr, cap, count_floor=EPS, **kw):
         update_variances=bool(upd[1]),
         update_weights=bool(upd[2]),
         mean_var_update_threshold=count_floor,
-        **kw,
     )
+    route = _route(thr, cap, tuple(bool(u) for u in upd)) if not kw else 0
+    if route in (0, 3):
+        return sut.make_gmm(init, **want, **kw)
+    other = dict(
+        convergence_threshold=0.5,
+        max_fitting_steps=1 if cap != 1 else 3,
+        update_means=not want["update_means"],
+        update_variances=not want["update_variances"],
+        update_weights=not want["update_weights"],
+        mean_var_update_threshold=1e-3,
+    )
+    if route == 1:
+        g = sut.make_gmm(init, trainer="ml", **other)
+        g.set_params(**want)
+    else:
+        g = sut.make_gmm(init, trainer="map", ubm=sut.make_gmm(init), **other)
+        for k, v in want.items():
+            setattr(g, k, v)
     return g
 
 
